@@ -128,4 +128,65 @@ theorem getIeeeCompressed_df (r r' : R) (col col' : List Node) (g : Range)
       | (refine SameDF.map _ ?_ _; intro n; exact hs n _)
       | (refine SameDF.zipWithNodes _ ?_ _ _; intro n v; exact hs n v))
 
+/-! ### one step of the lock-step loop: the per-copy application -/
+
+/-- the B-side per-copy function of `decodeCompressedLoopB` -/
+def stepFB (T : Tables) (edition : Nat) (p : DDO × BM) (q : List Node × List Node) : DDO × BM × Node × Bool :=
+  match q.2 with
+  | n :: _ => applyTables2nodeB T edition (q.1.reverse ++ q.2) p.1 p.2 n
+  | [] => (p.1, p.2, ({ desc := 0 } : Node), false)
+
+theorem applied_quiet (T : Tables) (edition : Nat) :
+    ∀ (todos dones : List (List Node)) (ddos : List DDO) (bms : List BM),
+    bms.length = ddos.length → dones.length = todos.length → ddos.length = todos.length →
+    (∀ b ∈ bms, b = ({} : BM)) → (∀ d ∈ ddos, quietDDO d) →
+    (∀ t ∈ todos, ∀ x ∈ t, quietNode x = true) → (∀ t ∈ todos, t ≠ []) →
+    List.zipWith (stepFB T edition) (List.zip ddos bms) (List.zip dones todos) =
+      (List.zipWith (fun ddo n => applyTables2node T edition ddo n) ddos (todos.filterMap (·.head?))).map
+        (fun a => (a.1, ({} : BM), a.2.1, a.2.2)) := by
+  intro todos
+  induction todos with
+  | nil =>
+    intro dones ddos bms _ h2 _ _ _ _ _
+    have : dones = [] := List.eq_nil_of_length_eq_zero (by simpa using h2)
+    subst this
+    simp
+  | cons t ts ih =>
+    intro dones ddos bms h1 h2 h3 hb hd hq hne
+    match dones, ddos, bms, h1, h2, h3 with
+    | dn :: dns, d :: ds, b :: bs, h1, h2, h3 =>
+      have hbe : b = {} := hb b (by simp)
+      subst hbe
+      have hdq : quietDDO d := hd d (by simp)
+      match t, hne t (by simp), hq t (by simp) with
+      | n :: tl, _, hqt =>
+        have hn : quietNode n = true := hqt n (by simp)
+        simp only [List.zip_cons_cons, List.zipWith_cons_cons, List.filterMap_cons, List.head?_cons, List.map_cons]
+        have e1 : stepFB T edition (d, {}) (dn, n :: tl) =
+            ((applyTables2node T edition d n).1, ({} : BM), (applyTables2node T edition d n).2.1,
+             (applyTables2node T edition d n).2.2) := by
+          unfold stepFB
+          simp only []
+          exact applyTables2nodeB_quiet T edition _ d n hdq hn
+        rw [e1]
+        congr 1
+        exact ih dns ds bs (by simpa using h1) (by simpa using h2) (by simpa using h3)
+          (fun b hb' => hb b (by simp [hb'])) (fun d' hd' => hd d' (by simp [hd']))
+          (fun t' ht' => hq t' (by simp [ht'])) (fun t' ht' => hne t' (by simp [ht']))
+
+/-- what the lock-step loop keeps true while no bit-map operator is met -/
+structure CInv (st : CompStB) : Prop where
+  bms : ∀ b ∈ st.bms, b = ({} : BM)
+  ddos : ∀ d ∈ st.ddos, quietDDO d
+  todos : ∀ t ∈ st.todos, ∀ x ∈ t, quietNode x = true
+  dones : ∀ t ∈ st.dones, ∀ x ∈ t, quietNode x = true
+  l1 : st.bms.length = st.ddos.length
+  l2 : st.dones.length = st.todos.length
+  l3 : st.ddos.length = st.todos.length
+
+def liftC (x : Except XErr CompStB) : Except XErr CompSt :=
+  match x with
+  | .ok s => .ok s.plain
+  | .error e => .error e
+
 end Bufr
